@@ -33,6 +33,16 @@ class PathResult:
     def ok(self): return self.kind == 'ret' and isinstance(self.value, Enum) and self.value.variant == 'Ok'
     @property
     def err(self): return self.kind == 'ret' and isinstance(self.value, Enum) and self.value.variant == 'Err'
+    def div(self, a, b):
+        """floor division for specification terms, through the same hash-consed table the interpreter uses: a quotient
+        the code also computed is the *same* z3 constant (discharge by normalisation), a new one gets its defining lemma."""
+        from .core import Ctx
+        tmp = Ctx.__new__(Ctx); tmp.defs = {}
+        q, r = Ctx.divmod(tmp, a, b)
+        for d in tmp.defs.values():
+            if not any(d is x or (hasattr(x, 'eq') and x.eq(d)) for x in self.conds): self.conds.append(d)
+        return q
+
     def short(self):
         if self.kind == 'ret':
             if isinstance(self.value, Enum) and self.value.variant == 'Err': return 'Err(%s)' % err_name(self.value.fields[0])
@@ -101,7 +111,7 @@ class Check:
             try:
                 val = body(it)
             except PanicPath as p:
-                kind, msg = 'panic', p.msg
+                kind, msg = 'panic', p.msg + (' @ ' + p.where if p.where else '')
             except PathPruned:
                 continue
             except BoundExceeded as b:
